@@ -661,10 +661,32 @@ def app_delta(c):
     return z3.Extract(a1, z3.Length(a0), z3.Length(a1) - z3.Length(a0))
 
 
+def sum_of_lengths_stub(cx):
+    """sum(len(cast(AnyStr, data)) for data in <list>): the data bytes of the list, provided every element is data
+    (len() of an exception marker would be a TypeError): dlen restricted to marker-free lists IS that sum"""
+    import ast as _ast
+    g = cx.args[0]
+    if not (isinstance(g, VTag) and g.tag == 'genexp'):
+        raise Unsupported('sum() of something that is not a generator expression')
+    e = g.payload
+    gen = e.generators[0]
+    if _ast.unparse(e.elt) != 'len(cast(AnyStr, data))' or _ast.unparse(gen.target) != 'data' or gen.ifs \
+            or not isinstance(gen.iter, _ast.Name):
+        raise Unsupported('sum() over an unexpected generator: ' + _ast.unparse(e))
+    lst = cx.ex.deref(cx.st, cx.st.env[gen.iter.id])
+    if not isinstance(lst, VSeq):
+        raise Unsupported('sum() over a non-symbolic list')
+    cx.require('every-summand-is-data', R.alldata(lst.z))
+    return VInt(R.dlen(lst.z))
+
+
+sum_of_lengths_stub.modifies = ()
+
+
 collect_one = Spec(
     PROP, 'process', 'SSHClientProcess._collect_output', self_class='SSHStreamSession',
     params=dict(datatype=KT), classes=CLASSES,
-    stubs={'self._maybe_resume_reading': resume_stub},      # not called by the code as it stands (see F8)
+    stubs={'self._maybe_resume_reading': resume_stub, 'sum': sum_of_lengths_stub},
     requires=collect_requires,
     lemmas=lambda c: collect_lemmas(c) + auto_lemmas(c),
     ensures=[
@@ -724,15 +746,20 @@ for _s in (re_escape_stub, re_compile_stub, search_stub, match_end_stub):
     _s.modifies = ()
 
 
+STREAM['ghost_gave_up'] = 'bool'     # readuntil: reading was paused or EOF seen when it last decided to give up
+CLASSES['SSHStreamSession'] = STREAM
+
+
 def ru_resume_stub(cx):
     """resume_stub + a ghost record of the flags the caller has just tested"""
     outs = resume_stub(cx)
+    flag = VBool(z3.Or(cx.selff('_read_paused').z, cx.selff('_eof_received').z))
     for o in outs:
-        o.event = ('resume', (cx.selff('_read_paused'), cx.selff('_eof_received')))
+        o.osets = list(o.osets) + [(cx.ex.self_ref, 'ghost_gave_up', flag)]
     return outs
 
 
-ru_resume_stub.modifies = resume_stub.modifies
+ru_resume_stub.modifies = tuple(resume_stub.modifies) + ('ghost_gave_up',)
 
 
 def decided(c, cond):
@@ -780,7 +807,7 @@ def make_readuntil(kind):
             cur >= 0, cur <= z3.Length(Rb), bl == z3.Length(b),
             R.alldata(P), R.units(b) == R.flat(P), z3.Length(b) == R.dlen(P),
             (z3.Length(b) > 0) == (cur > 0),
-            R.flat(Rb) == offered(c),
+            R.flat(Rb) == offered(c), z3.Not(c.new('ghost_gave_up')),
             R.no_occ(b, sep_of(c)))                                    # no separator inside what was scanned
 
     def head_terms(c):
@@ -882,8 +909,7 @@ def make_readuntil(kind):
         p, expected = c.result_v.args[0].z, c.result_v.args[1]
         B1, sep = buf(c), sep_of(c)
         marker_next = z3.And(z3.Length(B1) > 0, R.is_exc(B1[0]), z3.Length(p) >= 1)
-        ev = c.events('resume')
-        gave_up = z3.Or(ev[-1][1][0].z, ev[-1][1][1].z) if ev else z3.BoolVal(False)
+        gave_up = c.new('ghost_gave_up')
         return z3.And(expected is VNone, z3.Concat(R.units(p), R.flat(B1)) == offered(c), R.no_occ(p, sep),
                       accounted(c), R.ok(B1),
                       # only at EOF, with reading paused (buffer full, no separator in it), or before a marker
@@ -923,11 +949,11 @@ def make_readuntil(kind):
                'self._block_read': await_stub, 'asyncio.IncompleteReadError': ire_stub,
                're.escape': re_escape_stub, 're.compile': re_compile_stub, 'pat.search': search_stub,
                'match.end': match_end_stub},
-        loops={1: LoopSpec(header='True', modifies=list(ENV_FIELDS), invariant=inv, lemmas=lemmas),
+        loops={1: LoopSpec(header='True', modifies=list(ENV_FIELDS) + ['ghost_gave_up'], invariant=inv, lemmas=lemmas),
                2: LoopSpec(header='curbuf < len(recv_buf)', modifies=['_recv_buf'], invariant=inv, lemmas=lemmas,
                            variant=lambda c: z3.Length(c.local('recv_buf')) - c.local('curbuf'))},
-        requires=lambda c: z3.And(wf(c), view_is(c), flow_inv(c, False)),
-        lemmas=out_lemmas,
+        requires=lambda c: z3.And(wf(c), view_is(c), flow_inv(c, False), z3.Not(c.old('ghost_gave_up'))),
+        lemmas=out_lemmas, returns='bytes', modifies=list(ENV_FIELDS) + ['ghost_base', 'ghost_gave_up'],
         ensures=[('delivers-the-next-units-in-order-nothing-lost', lambda c: post_return(c)[0]),
                  ('result-ends-with-a-separator-match', lambda c: post_return(c)[1]),
                  ('no-earlier-separator-match-in-result', lambda c: post_return(c)[2]),
@@ -942,8 +968,377 @@ def make_readuntil(kind):
     sp.loops[2].lemmas_on_break = True
     sp.simplify_index = True
     sp.tag = kind
+    sp.post_return, sp.raise_incomplete, sp.raise_marker = post_return, raise_incomplete, raise_marker
     return sp
 
 
 readuntil_literal = make_readuntil('literal')
 readuntil_newline = make_readuntil('newline')
+
+
+# ================================================================== writers of the receive buffer / EOF / close
+STREAM['ghost_woken'] = f'dict[{KT},bool]'        # datatypes whose blocked reader has been woken by this call
+STREAM['ghost_drain_woken'] = f'dict[{KT},bool]'  # datatypes whose blocked drainers have been woken by this call
+STREAM['ghost_wkey'] = KT                         # the (arbitrary) write datatype the drain clauses are about
+CLASSES['SSHStreamSession'] = STREAM
+KEYS = z3.Function('dict_keys_' + str(sort_of(parse_type(KT))), z3.ArraySort(sort_of(parse_type(KT)), BoolS),
+                   z3.SeqSort(sort_of(parse_type(KT))))
+KEYPOS = z3.Function('dict_keypos_' + str(sort_of(parse_type(KT))), z3.ArraySort(sort_of(parse_type(KT)), BoolS),
+                     sort_of(parse_type(KT)), IntS)
+
+
+def wake_stub(field):
+    def stub(cx):
+        m = cx.selff(field)
+        return [Out(ret=VNone, sets={field: VMap(m.dom, z3.Store(m.val, kz_of(cx.args[0]), True), m.kt, m.vt)},
+                    event=('wake:' + field, tuple(cx.args)))]
+    stub.modifies = (field,)
+    return stub
+
+
+unblock_read_stub = wake_stub('ghost_woken')
+unblock_drain_stub = wake_stub('ghost_drain_woken')
+
+
+def woken(c, field='ghost_woken', k=None, new=True):
+    m = c.newv(field) if new else c.oldv(field)
+    return z3.Select(m.val, key(c) if k is None else k)
+
+
+unblock_read = Spec(
+    PROP, 'stream', 'SSHStreamSession._unblock_read', self_class='SSHStreamSession',
+    params=dict(datatype=KT), classes=CLASSES,
+    stubs={'waiter.done': ret('bool', 'done'), 'waiter.set_result': noop('set_result')},
+    requires=lambda c: z3.And(wf(c), view_is(c)),
+    ensures=[('a-pending-waiter-is-completed-exactly-once', lambda c: z3.And(
+        z3.BoolVal(len(c.events('set_result')) <= 1),
+        z3.Implies(z3.BoolVal(len(c.events('set_result')) == 0),
+                   z3.Or(c.is_none(from_z3(z3.Select(c.oldv('_read_waiters').val, key(c)),
+                                           'opt[opaque:Future]')),
+                         z3.And(*[cl['ret'].z for cl in c.calls('waiter.done')] + [z3.BoolVal(True)])))))])
+
+at_eof = Spec(
+    PROP, 'stream', 'SSHStreamSession.at_eof', self_class='SSHStreamSession',
+    params=dict(datatype=KT), classes=CLASSES, returns='bool',
+    requires=lambda c: z3.And(wf(c), view_is(c)),
+    ensures=[('eof-only-when-flagged-and-drained',
+              lambda c: c.result == z3.And(c.old('_eof_received'), z3.Length(buf(c, False)) == 0))])
+
+
+def data_received_post(c):
+    d = kz_of(c.argv('datatype'))
+    m0, m1 = c.oldv('_recv_buf'), c.newv('_recv_buf')
+    B0 = z3.Select(m0.val, d)
+    return z3.And(m1.val == z3.Store(m0.val, d, z3.Concat(B0, z3.Unit(R.mk_val(c.arg('data'))))), m1.dom == m0.dom)
+
+
+data_received = Spec(
+    PROP, 'stream', 'SSHStreamSession.data_received', self_class='SSHStreamSession',
+    params=dict(data='bytes', datatype=KT), classes=CLASSES,
+    stubs={'self._unblock_read': unblock_read_stub, 'self._maybe_pause_reading': contract_stub(lambda: maybe_pause)},
+    # NO precondition on len(data): the channel hands over whatever it decoded (see finding: '' in str mode)
+    requires=lambda c: z3.And(wf(c), view_is(c), accounted(c, False), R.ok(buf(c, False)), flow_inv(c, False)),
+    lemmas=lambda c: auto_lemmas(c, extra=[R.dlen(buf(c)), R.ok(buf(c))]),
+    ensures=[
+        ('appended-at-the-tail-nothing-else-touched', data_received_post),
+        ('buffer-length-accounting', lambda c: accounted(c)),
+        ('no-empty-chunk-left', lambda c: R.ok(buf(c))),
+        ('flow-control-invariant', lambda c: flow_inv(c)),
+        ('reader-woken', lambda c: woken(c)),
+    ])
+data_received.abstract_fns = ABSTRACT
+
+
+def for_i(c):
+    return c.extra['i']
+
+
+def view_pos(c, field):
+    return KEYPOS(c.oldv(field).dom, key(c))
+
+
+eof_received = Spec(
+    PROP, 'stream', 'SSHStreamSession.eof_received', self_class='SSHStreamSession',
+    classes=CLASSES, returns='bool', modifies=['_eof_received', 'ghost_woken'],
+    stubs={'self._unblock_read': unblock_read_stub},
+    loops={1: LoopSpec(header='for datatype in self._read_waiters', modifies=['ghost_woken'],
+                       invariant=lambda c: z3.And(c.new('_eof_received'),
+                                                  z3.Implies(view_pos(c, '_read_waiters') < for_i(c), woken(c))))},
+    requires=wf,
+    ensures=[('eof-flag-set', lambda c: c.new('_eof_received')),
+             ('every-blocked-reader-woken', lambda c: woken(c)),
+             ('returns-true', lambda c: c.result)])
+
+
+def lost_marker_inv(c):
+    e = c.argv('exc')
+    B0, B1 = buf(c, False), buf(c)
+    m0, m1 = c.oldv('_recv_buf'), c.newv('_recv_buf')
+    ez = e.val.z if isinstance(e, VOpt) else e.z
+    return z3.And(m1.dom == m0.dom,
+                  B1 == z3.If(view_pos(c, '_read_waiters') < for_i(c), z3.Concat(B0, z3.Unit(R.mk_exc(ez))), B0))
+
+
+def lost_post_marker(c):
+    e = c.argv('exc')
+    B0, B1 = buf(c, False), buf(c)
+    appended = z3.And(z3.Not(c.old('_eof_received')), z3.Not(e.isnone))
+    return z3.And(z3.Implies(appended, B1 == z3.Concat(B0, z3.Unit(R.mk_exc(e.val.z)))),
+                  z3.Implies(z3.Not(appended), B1 == B0))
+
+
+connection_lost = Spec(
+    PROP, 'stream', 'SSHStreamSession.connection_lost', self_class='SSHStreamSession',
+    params=dict(exc='opt[opaque:Exc]'), classes=CLASSES,
+    stubs={'self.eof_received': contract_stub(lambda: eof_received), 'self._unblock_drain': unblock_drain_stub},
+    loops={1: LoopSpec(header='for datatype in self._read_waiters', modifies=['_recv_buf'],
+                       invariant=lost_marker_inv),
+           2: LoopSpec(header='for datatype in self._drain_waiters', modifies=['ghost_drain_woken'],
+                       invariant=lambda c: z3.Implies(
+                           KEYPOS(c.oldv('_drain_waiters').dom, kz_of(c.oldv('ghost_wkey'))) < for_i(c),
+                           woken(c, 'ghost_drain_woken', kz_of(c.oldv('ghost_wkey')))))},
+    requires=lambda c: z3.And(wf(c), accounted(c, False), R.ok(buf(c, False)), flow_inv(c, False),
+                              c.oldv('_recv_buf').dom == c.oldv('_read_waiters').dom,
+                              z3.Select(c.oldv('_drain_waiters').dom, kz_of(c.oldv('ghost_wkey')))),
+    lemmas=lambda c: auto_lemmas(c, extra=[R.dlen(buf(c)), R.ok(buf(c))]),
+    ensures=[
+        ('loss-recorded', lambda c: z3.And(c.new('_connection_lost'),
+                                           c.ex.veq(c.new_state, c.newv('_exception'), c.argv('exc')))),
+        # exactly one marker, exactly when EOF had not been seen and there is an exception to report
+        ('exception-marker-appended-once-iff-no-eof-yet', lost_post_marker),
+        ('eof-flag-set', lambda c: c.new('_eof_received')),
+        ('blocked-readers-woken-unless-eof-was-already-signalled',
+         lambda c: z3.Or(c.old('_eof_received'), woken(c))),
+        ('blocked-drainers-woken', lambda c: woken(c, 'ghost_drain_woken', kz_of(c.oldv('ghost_wkey')))),
+        ('buffer-length-accounting', lambda c: accounted(c)),
+        ('no-empty-chunk-left', lambda c: R.ok(buf(c))),
+        ('flow-control-invariant', lambda c: flow_inv(c)),
+    ])
+connection_lost.abstract_fns = ABSTRACT
+
+SERVER_CLASSES = dict(CLASSES)
+SERVER_CLASSES['SSHServerStreamSession'] = STREAM
+exception_received = Spec(
+    PROP, 'stream', 'SSHServerStreamSession.exception_received', self_class='SSHStreamSession',
+    params=dict(exc='opaque:Exc'), classes=CLASSES,
+    stubs={'self._unblock_read': unblock_read_stub},
+    requires=lambda c: z3.And(wf(c), c.is_none(c.oldv('ghost_key')), accounted(c, False), R.ok(buf(c, False)),
+                              flow_inv(c, False)),
+    lemmas=lambda c: auto_lemmas(c, extra=[R.dlen(buf(c)), R.ok(buf(c))]),
+    ensures=[
+        ('marker-appended-at-the-tail',
+         lambda c: buf(c) == z3.Concat(buf(c, False), z3.Unit(R.mk_exc(c.arg('exc'))))),
+        ('buffer-length-accounting', lambda c: accounted(c)),
+        ('no-empty-chunk-left', lambda c: R.ok(buf(c))),
+        ('reader-woken', lambda c: woken(c)),
+    ])
+exception_received.abstract_fns = ABSTRACT
+
+pause_writing = Spec(
+    PROP, 'stream', 'SSHStreamSession.pause_writing', self_class='SSHStreamSession', classes=CLASSES,
+    ensures=[('write-paused', lambda c: c.new('_write_paused'))])
+
+resume_writing = Spec(
+    PROP, 'stream', 'SSHStreamSession.resume_writing', self_class='SSHStreamSession', classes=CLASSES,
+    stubs={'self._unblock_drain': unblock_drain_stub},
+    loops={1: LoopSpec(header='for datatype in self._drain_waiters', modifies=['ghost_drain_woken'],
+                       invariant=lambda c: z3.And(z3.Not(c.new('_write_paused')), z3.Implies(
+                           KEYPOS(c.oldv('_drain_waiters').dom, kz_of(c.oldv('ghost_wkey'))) < for_i(c),
+                           woken(c, 'ghost_drain_woken', kz_of(c.oldv('ghost_wkey'))))))},
+    requires=lambda c: z3.Select(c.oldv('_drain_waiters').dom, kz_of(c.oldv('ghost_wkey'))),
+    ensures=[('write-resumed', lambda c: z3.Not(c.new('_write_paused'))),
+             ('blocked-drainers-woken', lambda c: woken(c, 'ghost_drain_woken', kz_of(c.oldv('ghost_wkey'))))])
+
+
+# ================================================================== exit status / exit signal (channel.py)
+from .common import PACKET_CLASSES, PACKET_INLINE, PACKET_TRUTHY, packet_wf
+
+EXIT_CHAN = {'_exit_status': 'opt[int]', '_exit_signal': 'opt[tuple[str,bool,str,str]]',
+             '_session': 'obj:Session', '_utf8_decode_errors': 'str'}
+EXIT_CLASSES = dict({'SSHClientChannel': EXIT_CHAN, 'Session': {}}, **PACKET_CLASSES)
+
+
+def status_notify_stub(cx):
+    """session.exit_status_received(status): by then the channel must already report that status"""
+    cur = cx.selff('_exit_status')
+    cx.require('status-stored-before-the-session-is-told',
+               z3.And(z3.Not(cur.isnone), cur.val.z == cx.args[0].z) if isinstance(cur, VOpt)
+               else cur.z == cx.args[0].z)
+    return [Out(ret=VNone, event=('exit_status_received', tuple(cx.args)))]
+
+
+status_notify_stub.modifies = ()
+
+process_exit_status = Spec(
+    PROP, 'channel', 'SSHClientChannel._process_exit_status_request', self_class='SSHClientChannel',
+    params=dict(packet='obj:SSHPacket'), classes=EXIT_CLASSES, inline=dict(PACKET_INLINE), truthy=PACKET_TRUTHY,
+    stubs={'self._session.exit_status_received': status_notify_stub},
+    requires=lambda c: packet_wf(c, c.argv('packet')),
+    ensures=[('status-is-the-low-byte-of-the-uint32-sent',
+              lambda c: z3.And(z3.Not(c.is_none(c.newv('_exit_status'))),
+                               c.ex.veq(c.new_state, c.newv('_exit_status'),
+                                        c.events('exit_status_received')[0][1][0])
+                               if c.events('exit_status_received') else False)),
+             ('session-told-exactly-once', lambda c: z3.BoolVal(len(c.events('exit_status_received')) == 1)),
+             ('request-accepted', lambda c: c.result)],
+    returns='bool',
+    raises={'PacketDecodeError': lambda c: z3.BoolVal(len(c.events('exit_status_received')) == 0)})
+
+
+def has_status(c):
+    return z3.Not(c.is_none(c.oldv('_exit_status')))
+
+
+def has_signal(c):
+    return z3.Not(c.is_none(c.oldv('_exit_signal')))
+
+
+get_exit_status = Spec(
+    PROP, 'channel', 'SSHClientChannel.get_exit_status', self_class='SSHClientChannel', classes=EXIT_CLASSES,
+    ensures=[('status-if-sent-else-minus-one-for-a-signal-else-none', lambda c: z3.And(
+        z3.Implies(has_status(c), c.ex.veq(c.new_state, c.result_v, c.oldv('_exit_status'))),
+        z3.Implies(z3.And(z3.Not(has_status(c)), has_signal(c)), c.ex.veq(c.new_state, c.result_v, VInt(-1))),
+        z3.Implies(z3.And(z3.Not(has_status(c)), z3.Not(has_signal(c))), c.is_none(c.result_v))))])
+
+get_returncode = Spec(
+    PROP, 'channel', 'SSHClientChannel.get_returncode', self_class='SSHClientChannel', classes=EXIT_CLASSES,
+    # assumed: signal numbers (module table built from the signal module, default 99) are positive
+    stubs={'_signal_numbers.get': ret('int', 'signum', assume=lambda cx, v: v.z >= 1)},
+    globals={'_signal_numbers': VTag('signal-number-table')},
+    ensures=[('status-if-sent-else-negative-signal-number-else-none', lambda c: z3.And(
+        z3.Implies(has_status(c), c.ex.veq(c.new_state, c.result_v, c.oldv('_exit_status'))),
+        z3.Implies(z3.And(z3.Not(has_status(c)), has_signal(c)),
+                   z3.And(z3.Not(c.is_none(c.result_v)),
+                          (c.result_v.val.z if isinstance(c.result_v, VOpt) else c.result_v.z) <= -1)
+                   if c.result_v is not VNone else False),
+        z3.Implies(z3.And(z3.Not(has_status(c)), z3.Not(has_signal(c))), c.is_none(c.result_v))))])
+
+
+# ================================================================== process.py: feeding a redirection target
+STREAM['ghost_fed'] = 'seq[opaque:RbUnit]'      # unit stream written to the redirection target so far
+CLASSES['SSHStreamSession'] = STREAM
+CLASSES['Writer'] = {}
+
+
+def fed_stub(kind):
+    def stub(cx):
+        fed = cx.selff('ghost_fed').z
+        a = cx.args[0] if cx.args else None
+        if kind == 'data':
+            new = z3.Concat(fed, R.units(a.z))
+        elif kind == 'exc':
+            new = z3.Concat(fed, R.mark(a.exc.z if isinstance(a, VOrExc) else a.z))
+        else:
+            new = fed
+        return [Out(ret=VNone, osets=[(cx.ex.self_ref, 'ghost_fed', VSeq(new, 'opaque:RbUnit'))],
+                    event=('write_' + kind, tuple(cx.args)))]
+    stub.modifies = ('ghost_fed',)
+    return stub
+
+
+def feed_inv(c):
+    L, i = c.extra['iter'].z, c.extra['i']
+    P = z3.Extract(L, 0, i)
+    return z3.And(buf(c) == L, c.newv('_recv_buf').dom == c.oldv('_recv_buf').dom,
+                  c.new('ghost_fed') == z3.Concat(c.old('ghost_fed'), R.flat(P)),
+                  c.new('_recv_buf_len') == c.old('_recv_buf_len') - R.dlen(P))
+
+
+def feed_lemmas(c):
+    L, i = c.extra['iter'].z, c.extra.get('i0', c.extra['i'])
+    n = z3.Length(L)
+    P, P1, y = z3.Extract(L, 0, i), z3.Extract(L, 0, i + 1), L[i]
+    return [R.ax_empty(),
+            Prove(z3.Implies(z3.And(0 <= i, i < n), P1 == z3.Concat(P, z3.Unit(y))), 'fed part grows by the current chunk'),
+            Prove(z3.Implies(i == n, P == L), 'everything fed'),
+            Prove(z3.Implies(i == 0, P == z3.Empty(R.SEQ)), 'nothing fed yet'),
+            R.ax_append(P, z3.Unit(y)), R.ax_single(y)] + auto_lemmas(c)
+
+
+feed_recv_buf = Spec(
+    PROP, 'process', 'SSHProcess.feed_recv_buf', self_class='SSHStreamSession',
+    params=dict(datatype=KT, writer='obj:Writer'), classes=CLASSES,
+    stubs={'writer.write': fed_stub('data'), 'writer.write_exception': fed_stub('exc'),
+           'writer.write_eof': fed_stub('eof'), 'self._maybe_resume_reading': resume_stub},
+    loops={1: LoopSpec(header='for buf in self._recv_buf[datatype]', modifies=['ghost_fed'],
+                       invariant=feed_inv, lemmas=feed_lemmas)},
+    requires=lambda c: z3.And(wf(c), view_is(c), accounted(c, False), R.ok(buf(c, False)), flow_inv(c, False)),
+    lemmas=lambda c: auto_lemmas(c, extra=[R.flat(buf(c)), R.dlen(buf(c)), R.ok(buf(c))]),
+    ensures=[
+        # "redirections copy all data and then EOF"
+        ('everything-buffered-is-copied-in-order',
+         lambda c: c.new('ghost_fed') == z3.Concat(c.old('ghost_fed'), R.flat(buf(c, False)))),
+        ('buffer-emptied', lambda c: R.flat(buf(c)) == app_delta(c)),
+        ('eof-forwarded-iff-received-and-after-the-data',
+         lambda c: z3.BoolVal(len(c.events('write_eof')) == 1) == c.old('_eof_received')),
+        ('buffer-length-accounting', lambda c: accounted(c)),
+        ('no-empty-chunk-left', lambda c: R.ok(buf(c))),
+        ('flow-control-invariant', lambda c: flow_inv(c)),
+    ])
+feed_recv_buf.abstract_fns = ABSTRACT
+
+
+# ------------------------------------------------------------------ readline = readuntil(newline), partial at EOF
+def readuntil_contract_stub(cx):
+    """modular call of readuntil(_NEWLINE, datatype): the contract proved above (Spec readuntil_newline), with the
+    exception objects carrying the data the contract speaks about"""
+    from pyvc.contracts import Ctx
+    spec = readuntil_newline
+    ex, st = cx.ex, cx.st
+    recv = ex.self_ref
+    args = {'separator': cx.args[0], 'datatype': cx.args[1], 'max_separator_len': VInt(0)}
+    c0 = Ctx(ex, st, st, recv, args=args)
+    cx.require('requires', spec.requires(c0))
+    decl = ex.spec.classes[st.rec(recv).cls]
+
+    def havoc():
+        s2 = st.fork()
+        sets = {}
+        for f in spec.modifies:
+            v = ex.fresh(s2, decl[f], 'mod_' + f)
+            sets[f] = v
+            s2.set_field(recv, f, v)
+        return s2, sets
+    outs = []
+    s2, sets = havoc()
+    r = ex.fresh(s2, 'bytes', 'line')
+    c1 = Ctx(ex, st, s2, recv, result=r, args=args)
+    outs.append(Out(ret=r, sets=sets, assume=[f(c1) for _l, f in spec.ensures]))
+    s3, sets3 = havoc()
+    p = ex.fresh(s3, 'bytes', 'partial')
+    exc = VExc('IncompleteReadError', args=(p, VNone), attrs={'partial': p})
+    c2 = Ctx(ex, st, s3, recv, raised='IncompleteReadError', result=exc, args=args)
+    outs.append(Out(exc=exc, sets=sets3, assume=[spec.raises['IncompleteReadError'](c2)]))
+    s4, sets4 = havoc()
+    e = ex.fresh(s4, 'opaque:Exc', 'marker')
+    exc2 = VExc('Exception', attrs={'opaque': e})
+    c3 = Ctx(ex, st, s4, recv, raised='Exception', result=exc2, args=args)
+    outs.append(Out(exc=exc2, sets=sets4, assume=[spec.raises['Exception'](c3)]))
+    outs.append(Out(exc=VExc('CancelledError'), sets=havoc()[1]))
+    return outs
+
+
+readuntil_contract_stub.modifies = tuple(ENV_FIELDS) + ('ghost_base', 'ghost_gave_up')
+readuntil_contract_stub.spec_getter = lambda: readuntil_newline      # (listed as a modular call, not as a trusted stub)
+
+
+def readline_post(c):
+    from pyvc.contracts import Ctx
+    sp = readuntil_newline
+    fake = Ctx(c.ex, c.old_state, c.new_state, c.self_ref, raised='IncompleteReadError',
+               result=VExc('IncompleteReadError', args=(c.result_v, VNone)), args=c.args)
+    return z3.Or(z3.And(*sp.post_return(c)), sp.raise_incomplete(fake))
+
+
+readline = Spec(
+    PROP, 'stream', 'SSHStreamSession.readline', self_class='SSHStreamSession',
+    params=dict(datatype=KT), classes=CLASSES, globals={'_NEWLINE': NEWLINE_TAG},
+    stubs={'self.readuntil': readuntil_contract_stub},
+    requires=lambda c: z3.And(wf(c), view_is(c), flow_inv(c, False), z3.Not(c.old('ghost_gave_up'))),
+    ensures=[
+        # one line: through the first newline; or, when the stream ends / a marker is next / the buffer is full, the
+        # newline-free rest (readuntil's IncompleteReadError.partial, consumed)
+        ('one-line-or-the-newline-free-remainder', readline_post),
+        ('buffer-length-accounting', lambda c: accounted(c)),
+        ('no-empty-chunk-left', lambda c: R.ok(buf(c)))],
+    raises={'CancelledError': True, 'Exception': lambda c: readuntil_newline.raise_marker(c)})
